@@ -46,7 +46,7 @@ __CPROVER_ensures(DLT(g_sys.n_again) == 1 ==> (g_sys.ret == -1 && (g_sys.err == 
 /* hard error: the head aio at that call, and only it, gets the mapped error, count 0 */           \
 __CPROVER_ensures(DLT(g_sys.n_err) == 1 ==> (g_sys.ret == -1 && g_fin_last == g_sys.head && g_fin_last == g_pop_last && g_fin_last_rv == VP_PLAT(g_sys.err) && g_fin_last_count == 0)) \
 /* otherwise the last completion belongs to the last call that returned n >= 0 */                  \
-__CPROVER_ensures((DLT(g_sys.n_err) == 0 && DLT(g_pops) > 0) ==> VP_FIN_IS_OK_CALL)                  \
+__CPROVER_ensures((DLT(g_sys.n_err) == 0 && DLT(g_pops) > 0) ==> (VP_FIN_IS_OK_CALL && g_sys.ok_kind == VP_KIND_OF(q))) \
 /* the head that was there on entry: first to be served; while it waits nothing of it changes */   \
 __CPROVER_ensures((OLD((q).s.n) > 0 && OLD((q).s.orig)) ==> ((q).s.orig == (DLT(g_pops) == 0)))           \
 __CPROVER_ensures((OLD((q).s.n) > 0 && OLD((q).s.orig) && (q).s.orig) ==> (q).first->a_count == OLD((q).first->a_count)) \
